@@ -68,6 +68,8 @@ func (p *Processor) OnColumn(ctx context.Context, data []byte) (context.Context,
 	}
 	if !p.envelopeMatcher.Match(data[p.matchedHash.Length():]) {
 		p.matchedHash = nil
+		// forget the hash of the previous column too: it does not belong to this value
+		p.hashData = nil
 		return ctx, data, nil
 	}
 	p.rawData = make([]byte, len(data))
